@@ -339,10 +339,13 @@ pub fn drive_atomic(ops: &str, trace: &str) {
         let nthreads = programs.len();
         let sc = run.cfg["sc"].as_bool().unwrap_or(false);
         let mut rng = XorShift(run.cfg["seed"].as_u64().unwrap_or(1).wrapping_mul(0x9E3779B97F4A7C15) | 1);
-        let script: Vec<(usize, String, usize)> = run.cfg["steps"]
+        // rf selector in a script: >= 1 explicit message index, -1 the oldest message the thread may read, -2 the newest
+        let script: Vec<(usize, String, i64)> = run.cfg["steps"]
             .as_array()
-            .map(|a| a.iter().map(|s| (s[0].as_u64().unwrap() as usize, s[1].as_str().unwrap().to_string(), s[2].as_u64().unwrap() as usize)).collect())
+            .map(|a| a.iter().map(|s| (s[0].as_u64().unwrap() as usize, s[1].as_str().unwrap().to_string(), s[2].as_i64().unwrap())).collect())
             .unwrap_or_default();
+        // "free" scripts only say which thread takes its next step (grid of suspension points): no labels to compare
+        let free = run.cfg["free_script"].as_bool().unwrap_or(false);
         let park_after = run.cfg["park_after"].as_i64().unwrap_or(-1);
         let solo: Vec<usize> = run.cfg["solo"].as_array().map(|a| a.iter().map(|x| x.as_u64().unwrap() as usize).collect()).unwrap_or_default();
 
@@ -415,7 +418,14 @@ pub fn drive_atomic(ops: &str, trace: &str) {
                 let (st, lab, rf) = script[script_pos].clone();
                 script_pos += 1;
                 if runnable.contains(&(st - 1)) {
-                    (st - 1, Some(lab), Some(rf))
+                    (st - 1, if free { None } else { Some(lab) }, Some(rf))
+                } else if free {
+                    // that thread is blocked on the lock or has finished: the grid point is simply not reachable this way
+                    step_no -= 1;
+                    if script_pos >= script.len() && park_after < 0 {
+                        break;
+                    }
+                    continue;
                 } else {
                     drifted = true;
                     out.emit(&json!({"run":run.run,"ev":"drift","why":"scripted thread is not runnable","t":st,"label":lab}));
@@ -478,7 +488,9 @@ pub fn drive_atomic(ops: &str, trace: &str) {
                     let lo = if sim.sc { sim.mem[l].len() } else { sim.tv[t][l] };
                     let hi = sim.mem[l].len();
                     let idx = match want_rf {
-                        Some(rf) if rf >= lo && rf <= hi => rf,
+                        Some(-1) => lo,
+                        Some(-2) => hi,
+                        Some(rf) if rf >= lo as i64 && rf <= hi as i64 => rf as usize,
                         Some(_) => {
                             drifted = true;
                             lo + rng.below(hi - lo + 1)
